@@ -477,3 +477,269 @@ Proof.
   unfold Sc. apply St_shrink; [reflexivity|]. intros HI.
   refine (Shrink_prm _ (vw c1) _ _ HI). intros x Hx. exact (fold_ddel_In _ _ _ Hx).
 Qed.
+
+Lemma St_out X v X' v' ids o o' : fired o' = fired o -> St ids X v X' v' o -> St ids X v X' v' o'.
+Proof. unfold St. intros ->. auto. Qed.
+
+Lemma St_weaken ids X v X' v' o : St [] X v X' v' o -> St ids X v X' v' o.
+Proof.
+  intros S HI _ _. destruct S as (I' & N & F & L & K); [exact HI|constructor|intros ? []|].
+  split; [exact I'|]. split; [exact N|]. split; [|split].
+  - intros id H. destruct (F id H) as [H'|[]]. left. exact H'.
+  - intros id H. destruct (L id H) as [[H'|[]] H2]. split; [left; exact H'|exact H2].
+  - intros id H. destruct (K id H) as [H'|[]]. left. exact H'.
+Qed.
+
+Lemma ack_loop_Sc h snap : forall c c' o, ack_loop c h snap = (c', o) -> Sc [] c c' o.
+Proof.
+  induction snap as [|[s t] r IH]; intros c c' o E; cbn [ack_loop] in E.
+  - injection E as <- <-. apply St_refl.
+  - dpair E c1 o1 E1. destruct (ack_loop c1 h r) as [c2 o2] eqn:E2. injection E as <- <-.
+    apply Sc_seq with (c1 := c1); [|apply IH; exact E2].
+    destruct (hdr_acks _ _ s); [eapply resolve_Sc; eassumption|].
+    destruct (_ >? _); [eapply resolve_Sc; eassumption|]. injection E1 as <- <-. apply St_refl.
+Qed.
+
+Lemma timeout_loop_Sc strict now snap : forall c c' o, timeout_loop strict c now snap = (c', o) -> Sc [] c c' o.
+Proof.
+  induction snap as [|[s t] r IH]; intros c c' o E; cbn [timeout_loop] in E.
+  - injection E as <- <-. apply St_refl.
+  - dpair E c1 o1 E1. destruct (timeout_loop strict c1 now r) as [c2 o2] eqn:E2. injection E as <- <-.
+    apply Sc_seq with (c1 := c1); [|apply IH; exact E2].
+    match type of E1 with (if ?b then _ else _) = _ => destruct b end;
+      [eapply resolve_Sc; eassumption|injection E1 as <- <-; apply St_refl].
+Qed.
+
+(* ---------- growing: the application hands over a callback ---------- *)
+Lemma St_grow_plain ids X v X' v' :
+  sub (plain X' v') (plain X v ++ ids) -> incl (rps (allcb X' v')) (rps (allcb X v)) ->
+  (Inv X v -> pids (mcbs (map snd (v_prm v'))) = [] /\ Forall mok (v_out v')) ->
+  v_rid v <= v_rid v' -> (forall r, zmem r (v_done v) = true -> zmem r (v_done v') = true) ->
+  St ids X v X' v' [].
+Proof.
+  intros S1 S2 S34 S5 S6 HI ND Fr. destruct (S34 HI) as [S3 S4]. destruct HI as [N P O R U].
+  assert (Hpl : forall id, In id (plain X' v') -> In id (plain X v) \/ In id ids).
+  { intros id H. apply in_app_or. eapply sub_In; eassumption. }
+  split; [|split; [constructor|split; [intros ? []|split]]].
+  - constructor; [|exact S3|exact S4| |].
+    + eapply sub_NoDup; [exact S1|]. apply NoDup_app_iff. split; [exact N|]. split; [exact ND|].
+      intros x H1 H2. apply (Fr x H2). left. exact H1.
+    + intros rid id H. apply S2 in H. destruct (R rid id H) as [A B]. split; [lia|]. intros Hin.
+      destruct (Hpl id Hin) as [H'|H']; [exact (B H')|]. apply (Fr id H'). right. exists rid. exact H.
+    + intros rid id rid' id' H H'. apply U; apply S2; assumption.
+  - intros id H. split; [|intros []]. destruct H as [H|(rid & H & Hd)].
+    + destruct (Hpl id H); [left; left; assumption|right; assumption].
+    + left. right. exists rid. split; [apply S2; exact H|].
+      destruct (zmem rid (v_done v)) eqn:E; [|reflexivity]. rewrite (S6 _ E) in Hd. discriminate.
+  - intros id [H|(rid & H)].
+    + destruct (Hpl id H); [left; left; assumption|right; assumption].
+    + left. right. exists rid. apply S2. exact H.
+Qed.
+
+Lemma St_grow_retry id X v X' v' :
+  sub (plain X' v') (plain X v) ->
+  (forall pr, In pr (rps (allcb X' v')) -> In pr (rps (allcb X v)) \/ pr = (v_rid v, id)) ->
+  (Inv X v -> pids (mcbs (map snd (v_prm v'))) = [] /\ Forall mok (v_out v')) ->
+  v_rid v < v_rid v' -> (forall r, zmem r (v_done v) = true -> zmem r (v_done v') = true) ->
+  St [id] X v X' v' [].
+Proof.
+  intros S1 S2 S34 S5 S6 HI ND Fr. destruct (S34 HI) as [S3 S4]. destruct HI as [N P O R U].
+  assert (Fr' : ~ Known X v id) by (apply Fr; left; reflexivity).
+  split; [|split; [constructor|split; [intros ? []|split]]].
+  - constructor; [|exact S3|exact S4| |].
+    + eapply sub_NoDup; eassumption.
+    + intros rid id' H. destruct (S2 _ H) as [H'|H'].
+      * destruct (R rid id' H') as [A B]. split; [lia|]. intros Hin. apply B. eapply sub_In; eassumption.
+      * injection H' as -> ->. split; [lia|]. intros Hin. apply Fr'. left. eapply sub_In; eassumption.
+    + intros rid id1 rid' id2 H H'. destruct (S2 _ H) as [A|A], (S2 _ H') as [B|B].
+      * apply U; assumption.
+      * injection B as -> ->. destruct (R _ _ A) as [A1 _]. split; [lia|]. intros ->. exfalso. apply Fr'. right. eauto.
+      * injection A as -> ->. destruct (R _ _ B) as [B1 _]. split; [lia|]. intros <-. exfalso. apply Fr'. right. eauto.
+      * injection A as -> ->. injection B as -> ->. split; reflexivity.
+  - intros id' H. split; [|intros []]. destruct H as [H|(rid & H & Hd)].
+    + left. left. eapply sub_In; eassumption.
+    + destruct (S2 _ H) as [H'|H']; [|injection H' as -> ->; right; left; reflexivity].
+      left. right. exists rid. split; [exact H'|].
+      destruct (zmem rid (v_done v)) eqn:E; [|reflexivity]. rewrite (S6 _ E) in Hd. discriminate.
+  - intros id' [H|(rid & H)].
+    + left. left. eapply sub_In; eassumption.
+    + destruct (S2 _ H) as [H'|H']; [|injection H' as -> ->; right; left; reflexivity].
+      left. right. exists rid. exact H'.
+Qed.
+
+Lemma mcbs_snoc q m : mcbs (q ++ [m]) = mcbs q ++ olist (m_cb m).
+Proof. rewrite mcbs_app. cbn. rewrite app_nil_r. reflexivity. Qed.
+
+Lemma uid_nil i : (forall id, i <> IUser id) -> uid i = [].
+Proof. destruct i; intros H; try reflexivity. exfalso. exact (H id eq_refl). Qed.
+
+Lemma Inv_keep_prm_out X v : Inv X v -> forall m, mok m ->
+  pids (mcbs (map snd (v_prm v))) = [] /\ Forall mok (v_out v ++ [m]).
+Proof. intros [N P O R U] m Hm. split; [exact P|]. apply Forall_app. split; [exact O|]. constructor; [exact Hm|constructor]. Qed.
+
+Lemma send_type_Sc c ty p r k : (r = RBest -> uid k = []) -> Sc (uid k) c (send_type c ty p r k) [].
+Proof.
+  intros Hb. unfold Sc, send_type. set (mseq := seq_succ (c_seq_msg c)).
+  assert (Hplain : mk_cb r k (c_next_rid c) mseq ty p = match k with INone => None | _ => Some (Plain k) end \/
+                   mk_cb r k (c_next_rid c) mseq ty p = Some (Retry (c_next_rid c) mseq ty p k) /\ r = RTimeout).
+  { destruct r; [left|left|right]; auto. }
+  set (m := {| m_seq := mseq; m_type := ty; m_payload := p; m_cb := mk_cb r k (c_next_rid c) mseq ty p; m_retry := r; m_atime := 0 |}).
+  unfold pend. cbn [c_pcbs vw c_outgoing c_pretry_msg c_pfrags c_done c_next_rid set].
+  match goal with |- St _ _ _ ?X' ?v' _ => change X' with (flat_map snd (c_pcbs c));
+    change v' with {| v_out := c_outgoing c ++ [m]; v_prm := c_pretry_msg c; v_pf := c_pfrags c; v_done := c_done c;
+                      v_rid := match r with RTimeout => c_next_rid c + 1 | _ => c_next_rid c end |} end.
+  destruct Hplain as [Hm|[Hm Hr]].
+  - (* plain callback *)
+    assert (Hp : pids (olist (m_cb m)) = uid k) by (cbn [m m_cb]; rewrite Hm; destruct k; reflexivity).
+    assert (Hq : rps (olist (m_cb m)) = []) by (cbn [m m_cb]; rewrite Hm; destruct k; reflexivity).
+    apply St_grow_plain.
+    + unfold plain. cbn [v_out v_pf vw]. rewrite mcbs_snoc, pids_app, Hp. subs.
+    + unfold allcb. cbn [v_out v_prm vw]. rewrite mcbs_snoc, !rps_app, Hq, app_nil_r, <- !rps_app. apply incl_refl.
+    + intros HI. apply (Inv_keep_prm_out _ (vw c) HI m). intros Hn. rewrite Hp. apply Hb.
+      cbn [m m_retry] in Hn. destruct r; try reflexivity; try contradiction. discriminate Hm || (exfalso; clear - Hm; destruct k; discriminate).
+    + cbn. destruct r; lia.
+    + auto.
+  - (* RetrySender *)
+    assert (Hp : pids (olist (m_cb m)) = []) by (cbn [m m_cb]; rewrite Hm; reflexivity).
+    assert (Hmok : mok m) by (intros _; exact Hp).
+    subst r. destruct (icb_cases k) as [(id & ->)|Hi].
+    + apply St_grow_retry.
+      * unfold plain. cbn [v_out v_pf vw]. rewrite mcbs_snoc, pids_app, Hp. subs.
+      * unfold allcb. cbn [v_out v_prm vw v_rid]. rewrite mcbs_snoc. intros pr. rewrite !rps_app, !in_app_iff.
+        cbn [m m_cb]. rewrite Hm. cbn [olist rps flat_map rp app In]. intuition (subst; auto).
+      * intros HI. exact (Inv_keep_prm_out _ (vw c) HI m Hmok).
+      * cbn. lia.
+      * auto.
+    + rewrite (uid_nil _ Hi). apply St_grow_plain.
+      * unfold plain. cbn [v_out v_pf vw]. rewrite mcbs_snoc, pids_app, Hp. subs.
+      * unfold allcb. cbn [v_out v_prm vw]. rewrite mcbs_snoc, !rps_app.
+        assert (rps (olist (m_cb m)) = []) as -> by (cbn [m m_cb]; rewrite Hm; destruct k; try reflexivity; exfalso; exact (Hi id eq_refl)).
+        rewrite app_nil_r, <- !rps_app. apply incl_refl.
+      * intros HI. exact (Inv_keep_prm_out _ (vw c) HI m Hmok).
+      * cbn. lia.
+      * auto.
+Qed.
+
+Lemma send_type_Sc0 c ty p r k : (forall id, k <> IUser id) -> Sc [] c (send_type c ty p r k) [].
+Proof. intros Hi. rewrite <- (uid_nil _ Hi). apply send_type_Sc. intros _. apply uid_nil. exact Hi. Qed.
+
+Lemma send_frags_Sc frags : forall c fid n r i, Sc [] c (send_frags c fid n r i frags) [].
+Proof.
+  induction frags as [|f rest IH]; intros c fid n r i; cbn [send_frags]; [apply St_refl|].
+  change (@nil out) with (@nil out ++ []). eapply Sc_seq; [|apply IH]. apply send_type_Sc0. intros; discriminate.
+Qed.
+
+(* the application's side: which id an event hands over, and the one restriction on events *)
+Definition ev_ids (x : ev) : list Z :=
+  match x with ESend _ _ k => uid k | EDisconnect k => uid k | _ => [] end.
+(* a best-effort (RBest) send that fits one datagram copies its plain callback into the re-send
+   store: its callback may fire once per transmitted copy (see OnceP.best_effort_twice) *)
+Definition ev_ok (e : env) (x : ev) : Prop :=
+  match x with
+  | ESend p RBest (IUser _) => len p >? e_max_payload e = true
+  | _ => True
+  end.
+
+Lemma send_Sc e c p r k c' o : ev_ok e (ESend p r k) -> send e c p r k = (c', o) -> Sc (uid k) c c' o.
+Proof.
+  intros Hok E. unfold send in E.
+  destruct (negb _); [injection E as <- <-; apply St_weaken, St_refl|].
+  destruct (len p >? e_max_payload e) eqn:Ep.
+  - cbv zeta in E. set (c1 := c <| c_seq_frag := seq_succ (c_seq_frag c) |>) in E.
+    destruct (len p >? e_max_frag e * e_max_frags e); injection E as <- <-; [apply St_weaken; apply Sc_same; reflexivity|].
+    set (frags := split_frags (S (length p)) e p).
+    set (c2 := send_frags c1 (seq_succ (c_seq_frag c)) (len frags) r 0 frags).
+    change (uid k) with ([] ++ [] ++ uid k). change (@nil out) with (@nil out ++ [] ++ []).
+    apply St_comp with (X1 := pend c1) (v1 := vw c1); [apply Sc_same; reflexivity|].
+    apply St_comp with (X1 := pend c2) (v1 := vw c2); [apply send_frags_Sc|].
+    unfold pend. cbn [c_pcbs set].
+    match goal with |- St _ _ _ ?X' ?v' _ => change X' with (flat_map snd (c_pcbs c2));
+      change v' with (v_set_pf (vw c2) (dset (seq_succ (c_seq_frag c)) {| fs_ucb := k; fs_acks := repeat None (length frags) |} (c_pfrags c2))) end.
+    apply St_grow_plain.
+    + unfold plain. cbn [v_set_pf v_out v_pf vw].
+      assert (Hs : sub (fids (dset (seq_succ (c_seq_frag c)) {| fs_ucb := k; fs_acks := repeat None (length frags) |} (c_pfrags c2)))
+                       (uid k ++ fids (c_pfrags c2)))
+        by exact (dv_dset (fun fs => uid (fs_ucb fs)) _ _ _).
+      subs.
+    + apply incl_refl.
+    + intros [N P O R U]. split; assumption.
+    + cbn. lia.
+    + auto.
+  - injection E as <- <-. apply send_type_Sc. intros ->. destruct k; try reflexivity. cbn in Hok. congruence.
+Qed.
+
+Lemma Sc_same_r ids c c1 c2 o : Sc ids c c1 o -> vw c2 = vw c1 -> c_pcbs c2 = c_pcbs c1 -> Sc ids c c2 o.
+Proof. unfold Sc, pend. intros H -> ->. exact H. Qed.
+
+Lemma disconnect_Sc c k : Sc (uid k) c (disconnect c k) [].
+Proof.
+  unfold disconnect.
+  destruct (_ || _).
+  - set (c1 := c <| c_outgoing := [] |> <| c_incoming := [] |> <| c_pcbs := [] |> <| c_pretry := [] |> <| c_packs := [] |>).
+    apply Sc_same_r with (c1 := send_type c1 DISCONNECT [] RNone k); [|reflexivity|reflexivity].
+    change (uid k) with ([] ++ uid k). change (@nil out) with (@nil out ++ []).
+    apply St_comp with (X1 := pend c1) (v1 := vw c1).
+    + apply St_shrink; [reflexivity|]. intros [N P O R U]. constructor; cbn; auto; try lia.
+      * unfold plain. cbn. subs.
+      * unfold allcb. cbn. apply incl_appr, incl_appr, incl_refl.
+    + apply send_type_Sc. discriminate.
+  - apply St_weaken. apply Sc_same; reflexivity.
+Qed.
+
+Lemma client_hello_Sc c now hello : Sc [] c (client_hello c now hello) [].
+Proof.
+  unfold client_hello. change (@nil out) with (@nil out ++ []).
+  eapply Sc_seq; [apply (send_type_Sc0 c CLIENT_HELLO hello RNone IHello); intros; discriminate|apply Sc_same; reflexivity].
+Qed.
+
+Lemma Sc_nil_trans a b c : Sc [] a b [] -> Sc [] b c [] -> Sc [] a c [].
+Proof. intros H1 H2. exact (Sc_seq _ _ _ _ _ H1 H2). Qed.
+
+Lemma recv_handshake_Sc c ty oo c' os : recv_handshake c ty oo = (c', os) -> Sc [] c c' [].
+Proof.
+  intros Eh. unfold recv_handshake in Eh.
+  destruct ty, (c_server c); try (injection Eh as <- <-; apply St_refl).
+  - destruct (negb _); [injection Eh as <- <-; apply St_refl|].
+    destruct (negb _); injection Eh as <- <-; [apply St_refl|].
+    eapply Sc_nil_trans; [|apply send_type_Sc0; intros; discriminate]. apply Sc_same; reflexivity.
+  - destruct (o_parse oo =? 6); [injection Eh as <- <-; apply Sc_same; reflexivity|].
+    destruct (negb _); injection Eh as <- <-; [apply St_refl|].
+    eapply Sc_nil_trans; [|apply Sc_same; reflexivity].
+    eapply Sc_nil_trans; [|apply (send_type_Sc0 (c <| c_token := o_token oo |> <| c_key := Some (o_key oo) |>) CHALLENGE_RESP (o_reply oo) RNone IChallenge); intros; discriminate].
+    apply Sc_same; reflexivity.
+  - destruct (negb _); [injection Eh as <- <-; apply St_refl|].
+    destruct (o_temp_token oo) as [t|]; [|injection Eh as <- <-; apply St_refl].
+    destruct (t =? o_token oo); injection Eh as <- <-; [apply Sc_same; reflexivity|apply St_refl].
+Qed.
+
+Lemma recv_msgs_Sc ms c now orcs c' o : recv_msgs c now ms orcs = (c', o) -> Sc [] c c' o.
+Proof.
+  intros E. apply St_out with (o := []); [apply fired_none; intros id b; exact (recv_msgs_no_cb _ _ _ _ _ _ id b E)|].
+  apply (recv_msgs_rel (fun a b => Sc [] a b [])) with (ms := ms) (now := now) (orcs := orcs) (o := o); try exact E.
+  - intros a. apply St_refl.
+  - intros a b d. apply Sc_nil_trans.
+  - intros a bf. apply Sc_same; reflexivity.
+  - intros a s p. apply Sc_same; reflexivity.
+  - intros a n s p a' o' Ef. unfold recv_fragment in Ef. destruct (_ <? _)%nat; [injection Ef as <- <-; apply St_refl|].
+    injection Ef as <- <-. destruct (fr_complete _); apply Sc_same; reflexivity.
+  - intros a. apply Sc_same; reflexivity.
+  - intros a ty oo a' os Eh. eapply recv_handshake_Sc; eassumption.
+Qed.
+
+Lemma fired_ret o b : fired (o ++ [ORet b]) = fired o.
+Proof. rewrite fired_app. cbn. apply app_nil_r. Qed.
+
+Lemma recv_Sc c now d orcs c' o : recv c now d orcs = (c', o) -> Sc [] c c' o.
+Proof.
+  unfold recv. intros E.
+  destruct (keyless_refuses c (d_hdr d)); [injection E as <- <-; apply Sc_same; reflexivity|].
+  destruct (open_dgram (c_key c) d) as [ms|]; [|injection E as <- <-; apply Sc_same; reflexivity].
+  destruct (bf_insert (c_bf_pkt c) _) as [bf|]; [|injection E as <- <-; apply Sc_same; reflexivity].
+  match type of E with context [handle_ack_bits ?c0 _] => set (cc := c0) in E end.
+  destruct (handle_ack_bits cc (d_hdr d)) as [c1 o1] eqn:E1.
+  destruct (recv_msgs c1 now ms orcs) as [c2 o2] eqn:E2. injection E as <- <-.
+  apply St_out with (o := [] ++ o1 ++ o2).
+  { cbn [app]. rewrite !fired_app. destruct (raised o2); cbn; rewrite ?app_nil_r; reflexivity. }
+  apply Sc_seq with (c1 := cc); [apply Sc_same; reflexivity|].
+  apply Sc_seq with (c1 := c1); [exact (ack_loop_Sc _ _ _ _ _ E1)|exact (recv_msgs_Sc _ _ _ _ _ _ E2)].
+Qed.
